@@ -44,9 +44,9 @@ def host_denies(sig, hs, hh, c, srv):
 def tp_def_code(sig, T, hs, hh, srv):
     """what Network.traffic_permitted computes (helper contract, derived from the code)"""
     v = V.View(sig, T)
-    return sig.exists_hosts(lambda c: z3.And(z3.Or(v.comp(c), sig.public(sig.asub_t(c))),
-                                             subnet_ok(sig, sig.asub_t(c), hs, srv),
-                                             z3.Not(host_denies(sig, hs, hh, c, srv))), "src")
+    internet = z3.And(sig.public(hs), sig.allow(z3.IntVal(0), hs, srv))
+    return z3.Or(internet, sig.exists_hosts(lambda c: z3.And(
+        v.comp(c), subnet_ok(sig, sig.asub_t(c), hs, srv), z3.Not(host_denies(sig, hs, hh, c, srv))), "src"))
 
 
 def traffic_ok_stmt(sig, T, hs, hh, srv):
@@ -100,6 +100,10 @@ class HasReqRemotePerm(Contract):
 
     def variants(self):
         return list(V.KINDS)
+
+    def concretize(self, I, S):
+        from . import dyn_cex
+        return dyn_cex.make("net_hrp", I, S)
 
     def setup(self, I, variant):
         sig, T, st, net, a = dyn_setup(I, variant)
@@ -163,6 +167,10 @@ class TrafficPermitted(Contract):
     qualname = "nasim.envs.network.Network.traffic_permitted"
     tags = {"": ("C02", "C01", "C07", "C12")}
 
+    def concretize(self, I, S):
+        from . import dyn_cex
+        return dyn_cex.make("net_tp", I, S, extra={"host_addr": lambda m: [dyn_cex.mev(m, ival(S.a["host_addr"][0])), dyn_cex.mev(m, ival(S.a["host_addr"][1]))], "service": lambda m: dyn_cex.mev(m, nameval(S.a["service"]))})
+
     def setup(self, I, variant):
         sig, T, st, net, _ = dyn_setup(I, None)
         hs, hh, srv = z3.Int("tp_hsub"), z3.Int("tp_hhid"), z3.Int("tp_srv")
@@ -214,9 +222,11 @@ class TrafficPermittedLoop(LoopContract):
         hs, hh = ival(hs), ival(hh)
         srv = nameval(fr.locals["service"])
         j = sig.qvar("e")
-        body = z3.And(z3.Or(v.comp(j), sig.public(sig.asub(j))), subnet_ok(sig, sig.asub(j), hs, srv),
+        body = z3.And(v.comp(j), subnet_ok(sig, sig.asub(j), hs, srv),
                       z3.Not(host_denies(sig, hs, hh, j, srv)))
-        return [("no-earlier-source", z3.ForAll([j], z3.Implies(z3.And(0 <= j, j < k), z3.Not(body)))),
+        internet = z3.And(sig.public(hs), sig.allow(z3.IntVal(0), hs, srv))
+        return [("no-internet-route", z3.Not(internet)),
+                ("no-earlier-source", z3.ForAll([j], z3.Implies(z3.And(0 <= j, j < k), z3.Not(body)))),
                 ("state-untouched", tensor_of(fr.locals["state"]).content == T)]
 
 
@@ -235,6 +245,10 @@ def ur_rows(sig, T0, T1, csub, k):
 class UpdateReachable(Contract):
     qualname = "nasim.envs.network.Network._update_reachable"
     tags = {"": ("C03", "C04", "C01", "C12", "C13")}
+
+    def concretize(self, I, S):
+        from . import dyn_cex
+        return dyn_cex.make("net_update_reachable", I, S, extra={"compromised_addr": lambda m: [dyn_cex.mev(m, ival(S.a["compromised_addr"][0])), dyn_cex.mev(m, ival(S.a["compromised_addr"][1]))]})
 
     def setup(self, I, variant):
         sig, T, st, net, _ = dyn_setup(I, None)
@@ -311,7 +325,7 @@ def psum(sig, T0, tsub, k):
         for j in range(k):
             tot = tot + z3.If(ss_newly(sig, T0, tsub, j), z3.Select(z3.Select(T0, z3.IntVal(j)), L.dvalue), z3.RealVal(0))
         return tot
-    return psum(sig, T0, tsub, k)
+    return PSUM(T0, tsub, k)
 
 
 def psum_axioms(sig, T0, tsub):
@@ -322,7 +336,7 @@ def psum_axioms(sig, T0, tsub):
     k = sig.qvar("ps")
     term = z3.If(ss_newly(sig, T0, tsub, k), z3.Select(z3.Select(T0, k), L.dvalue), z3.RealVal(0))
     return [PSUM(T0, tsub, z3.IntVal(0)) == 0,
-            z3.ForAll([k], z3.Implies(k >= 0, PSUM(T0, tsub, k + 1) == psum(sig, T0, tsub, k) + term))]
+            z3.ForAll([k], z3.Implies(k >= 0, PSUM(T0, tsub, k + 1) == PSUM(T0, tsub, k) + term))]
 
 
 def ss_dicts(sig, T0, tsub, disc, newly, k):
@@ -353,6 +367,10 @@ class PerformSubnetScan(Contract):
 
     def variants(self):
         return ["SubnetScan"]
+
+    def concretize(self, I, S):
+        from . import dyn_cex
+        return dyn_cex.make("net_subnet_scan", I, S)
 
     def setup(self, I, variant):
         sig, T, st, net, a = dyn_setup(I, "SubnetScan")
@@ -484,6 +502,10 @@ class NetworkReset(Contract):
     qualname = "nasim.envs.network.Network.reset"
     tags = {"": ("C03", "C04", "C13", "C19")}
 
+    def concretize(self, I, S):
+        from . import dyn_cex
+        return dyn_cex.make("net_reset", I, S)
+
     def setup(self, I, variant):
         sig, T, st, net, _ = dyn_setup(I, None)
         S = Scope(sig=sig)
@@ -513,10 +535,8 @@ class NetworkReset(Contract):
             v1.cell(i, L.comp) == 0, v1.acc(i) == 0,
             v1.cell(i, L.reach) == z3.If(sig.public(sig.asub_t(i)), z3.RealVal(1), z3.RealVal(0)),
             v1.cell(i, L.disc) == v1.cell(i, L.reach)), "ri")))
-        c = sig.qvar("col")
-        out.append(("C04.config-untouched", sig.forall_hosts(lambda i: z3.ForAll([c], z3.Implies(
-            z3.And(c != L.comp, c != L.reach, c != L.disc, c != L.access),
-            z3.Select(z3.Select(T1, i), c) == z3.Select(z3.Select(T0, i), c))), "rc")))
+        out.append(("C04.config-untouched", sig.forall_hosts(
+            lambda i: V.mask_dyn(L, z3.Select(T1, i)) == V.mask_dyn(L, z3.Select(T0, i)), "rc")))
         return out
 
     def frame(self, I, S):
@@ -558,6 +578,10 @@ class NetworkResetLoop(LoopContract):
 class AllSensitive(Contract):
     qualname = "nasim.envs.network.Network.all_sensitive_hosts_compromised"
     tags = {"": ("C06", "C12", "C13")}
+
+    def concretize(self, I, S):
+        from . import dyn_cex
+        return dyn_cex.make("net_goal", I, S)
 
     def setup(self, I, variant):
         sig, T, st, net, _ = dyn_setup(I, None)
@@ -638,7 +662,7 @@ def net_spec(sig, a, T, U, T_ss, T_ur):
     c4 = z3.And(z3.BoolVal(a.is_privesc), z3.Not(v.comp(t)))
     gate = z3.Or(c1, c2, c3, c4)
     nodraw = z3.And(z3.BoolVal(a.is_exploit), v.comp(t))
-    chance_fail = z3.And(z3.Not(nodraw), U > a.prob)
+    chance_fail = z3.And(z3.Not(nodraw), U >= a.prob)
     draws = z3.If(z3.Or(gate, nodraw), 0, 1)
     if a.kind == "SubnetScan":
         ok = z3.And(v.comp(t), v.acc(t) >= z3.ToReal(a.req))
@@ -673,6 +697,10 @@ class NetPerformAction(Contract):
 
     def variants(self):
         return list(V.KINDS)
+
+    def concretize(self, I, S):
+        from . import dyn_cex
+        return dyn_cex.make("net_perform_action", I, S)
 
     def setup(self, I, variant):
         sig, T, st, net, a = dyn_setup(I, variant)
@@ -770,10 +798,8 @@ class NetPerformAction(Contract):
         out.append(("C04.monotone", sig.forall_hosts(lambda i: z3.And(
             v1.cell(i, L.comp) >= v0.cell(i, L.comp), v1.cell(i, L.reach) >= v0.cell(i, L.reach),
             v1.cell(i, L.disc) >= v0.cell(i, L.disc), v1.acc(i) >= v0.acc(i)), "mo")))
-        c = sig.qvar("col")
-        out.append(("C04.config-immutable", sig.forall_hosts(lambda i: z3.ForAll([c], z3.Implies(
-            z3.And(c != L.comp, c != L.reach, c != L.disc, c != L.access),
-            z3.Select(z3.Select(T1, i), c) == z3.Select(z3.Select(T0, i), c))), "ci")))
+        out.append(("C04.config-immutable", sig.forall_hosts(
+            lambda i: V.mask_dyn(L, z3.Select(T1, i)) == V.mask_dyn(L, z3.Select(T0, i)), "ci")))
         # C05
         newly_root = z3.And(succ, z3.BoolVal(isEP), v0.acc(t) < 2, v1.acc(t) == 2)
         if a.kind == "SubnetScan":
